@@ -1,15 +1,23 @@
 (** C01 - Formula-based samplers return only valid trial sequences.
 
     [C01_sound]: for every flat record in the fragment F1 (CodeSem.in_f1:
-    simple and WithinTrial factors in any design order, all of them in
-    act_design, sustain 1, any number of crossings and chunks (partial last
-    chunk, crossing weights, weighted levels), kinds Consistency / Cross /
+    simple and WithinTrial factors in any design order; act_design any subset
+    of the design, listed in design order, every factor outside it (an implied
+    derived factor: it has no variables and no Derivation constraints) a
+    WithinTrial factor of act_design factors whose table accepts every
+    argument tuple; sustain 1, any number of crossings and chunks (partial
+    last chunk, crossing weights, weighted levels), kinds Consistency / Cross /
     Derivation / AtMostKInARow / AtLeastKInARow / ExactlyKInARow / ExactlyK /
     Exclude / Pin / Sequential, combinations left out of a crossing by Exclude
-    constraints or by a crossed derived level no compatible arguments satisfy) every model of the formula the samplers hand to the solver
+    constraints or by a crossed derived level no compatible arguments satisfy)
+    every model of the formula the samplers hand to the solver
     ([full_cnf] = [combine_cnf_with_requests] of the compiled request) is, on
     the trial variables, the one-hot image of a sequence that is valid for the
-    reference semantics [Sem.valid_b (code_sem fb)].
+    reference semantics [Sem.valid_b (code_sem fb)]; [onehot fb t q] says that
+    q is complete, that the rows of the act_design factors are read off the
+    trial variables of t and that the rows of the implied factors are the ones
+    [SampleGen.decode] adds ([add_implied_levels]: the level whose table
+    accepts the decoded levels of the factors it reads).
     [C01_request_exact]: for EVERY backend request (no fragment), the final
     formula has a model extending an assignment of the variables below [b_fresh]
     iff that assignment satisfies the clauses and every cardinality request.
@@ -94,3 +102,13 @@ Example C01_example_wide :
   (exists b, compile ex_wide = COk b /\ b_fresh b = 139%Z) /\
   length (all_valid (code_sem ex_wide)) = 1%nat.
 Proof. exact ex_wide_facts. Qed.
+
+(** ... and by a design with an implied derived factor (not in act_design) *)
+Example C01_example_implied :
+  in_f1 ex_implied = true /\ (0 < T ex_implied)%nat /\ isact ex_implied 2 = false /\
+  (exists b, compile ex_implied = COk b /\ b_fresh b = 66%Z) /\
+  length (all_valid (code_sem ex_implied)) = 12%nat /\
+  hd nil (all_valid (code_sem ex_implied)) =
+    ((Some 1 :: Some 1 :: Some 0 :: Some 0 :: nil) :: (Some 1 :: Some 0 :: Some 1 :: Some 0 :: nil) ::
+     (Some 0 :: Some 1 :: Some 1 :: Some 0 :: nil) :: nil)%nat.
+Proof. exact ex_implied_facts. Qed.
